@@ -20,6 +20,11 @@ package storage
 //@ model kvmap(Store) map[string][]byte
 //@ model exhausted(Store) bool
 //@ model gasfull(GasCalculator) bool
+// gcons(g): gas consumed so far; sgas(s): the same seen through a State
+//@ model gcons(GasCalculator) int
+//@ repr gcons(self *gasCalculator) = self.consumed
+//@ model sgas(*State) int
+//@ repr sgas(self *State) = gcons(self.gc)
 //@ model sparent(Session) *sessionCache
 //@ model root(SessionedDirectStorage) *sessionCache
 //@ model treeHas(*ChainState) array[string]bool
@@ -62,13 +67,15 @@ package storage
 
 //@ interface GasCalculator
 //@   method Consume
-//@     modifies gasfull(self)
+//@     modifies gasfull(self), gcons(self)
+//@     ensures arg2 ==> gcons(self) == wrap64(old(gcons(self)) + wrap64(arg0 * arg1))   // C09.gas
 //@     ensures arg2 ==> result                                            // C09.gas
 //@     ensures !arg2 && old(gasfull(self)) ==> !result && gasfull(self)   // C09.gas
 //@     ensures !arg2 && !old(gasfull(self)) ==> result                    // C09.gas
 
 //@   method GetConsumed
 //@     modifies nothing
+//@     ensures result == gcons(self)          // C09.gas
 //@   method GetLimit
 //@     modifies nothing
 //@   method IsEnough
@@ -228,19 +235,19 @@ package storage
 
 //@ func (*GasStore).Get
 //@   implements Store
-//@   modifies gasfull(g.GasCalculator), exhausted(g.SessionedDirectStorage)
+//@   modifies gasfull(g.GasCalculator), gcons(g.GasCalculator), exhausted(g.SessionedDirectStorage)
 
 //@ func (*GasStore).Exists
 //@   implements Store
-//@   modifies gasfull(g.GasCalculator), exhausted(g.SessionedDirectStorage)
+//@   modifies gasfull(g.GasCalculator), gcons(g.GasCalculator), exhausted(g.SessionedDirectStorage)
 
 //@ func (*GasStore).Set
 //@   implements Store
-//@   modifies gasfull(g.GasCalculator), exhausted(g.SessionedDirectStorage), kvmap(g.SessionedDirectStorage)[str(key)], rep(g.SessionedDirectStorage)
+//@   modifies gasfull(g.GasCalculator), gcons(g.GasCalculator), exhausted(g.SessionedDirectStorage), kvmap(g.SessionedDirectStorage)[str(key)], rep(g.SessionedDirectStorage)
 
 //@ func (*GasStore).Delete
 //@   implements Store
-//@   modifies gasfull(g.GasCalculator), exhausted(g.SessionedDirectStorage), kvmap(g.SessionedDirectStorage)[str(key)], rep(g.SessionedDirectStorage)
+//@   modifies gasfull(g.GasCalculator), gcons(g.GasCalculator), exhausted(g.SessionedDirectStorage), kvmap(g.SessionedDirectStorage)[str(key)], rep(g.SessionedDirectStorage)
 
 //@ func (*NoGasStore).Get
 //@   implements Store
@@ -297,7 +304,7 @@ package storage
 //@ repr vHas(self *State)[k string] = (self.txSession != nil && has(kvmap(self.txSession), k)) ? !tomb(kvmap(self.txSession)[k]) : bHas(self)[k]
 //@ repr vVal(self *State)[k string] = (self.txSession != nil && has(kvmap(self.txSession), k)) ? kvmap(self.txSession)[k] : bVal(self)[k]
 
-//@ ghost func wfState(s *State) bool = s != nil && s.cs != nil && s.cache != nil && wfl(s.cache) && kvmap(s.cache) != nil && root(s.cache) != nil && kvmap(s.cache) == root(s.cache).store && (s.txSession != nil ==> (wfl(s.txSession) && kvmap(s.txSession) != nil && kvmap(s.txSession) != kvmap(s.cache) && sparent(s.txSession) == root(s.cache) && dyntype(s.txSession, "*cacheSession") && refof(s.txSession) != refof(s.cache)))
+//@ ghost func wfState(s *State) bool = s != nil && s.cs != nil && s.gc != nil && s.cache != nil && wfl(s.cache) && kvmap(s.cache) != nil && root(s.cache) != nil && kvmap(s.cache) == root(s.cache).store && (s.txSession != nil ==> (wfl(s.txSession) && kvmap(s.txSession) != nil && kvmap(s.txSession) != kvmap(s.cache) && sparent(s.txSession) == root(s.cache) && dyntype(s.txSession, "*cacheSession") && refof(s.txSession) != refof(s.cache)))
 
 //@ func (*State).Get
 //@   requires wfState(s)
@@ -346,3 +353,38 @@ package storage
 //@   modifies s.txSession, mapof(root(s.cache).store), mapof(root(s.cache).done), root(s.cache).keys, kidx(root(s.cache)), vHas(s), vVal(s), bHas(s), bVal(s), sessOpen(s)
 //@   ensures !sessOpen(s) && wfState(s)                                                                       // C09.session-commit
 //@   ensures bHas(s) == old(vHas(s)) && bVal(s) == old(vVal(s)) && vHas(s) == bHas(s) && vVal(s) == bVal(s)   // C09.session-commit
+
+//@ func (gasCalculator).GetConsumed
+//@   modifies nothing
+//@   ensures result == g.consumed          // C09.gas
+
+// gas bookkeeping seen through the State (used by the fee functions)
+//@ func (*State).ConsumedGas
+//@   requires s != nil && s.gc != nil
+//@   modifies nothing
+//@   ensures result == sgas(s)               // C09.gas
+
+//@ func (*State).ConsumeVerifySigGas
+//@   requires s != nil && s.gc != nil
+//@   modifies gasfull(s.gc), gcons(s.gc), sgas(s)
+//@   ensures sgas(s) == wrap64(old(sgas(s)) + wrap64(gas * 5000))      // C09.gas
+
+//@ func (*State).ConsumeStorageGas
+//@   requires s != nil && s.gc != nil
+//@   modifies gasfull(s.gc), gcons(s.gc), sgas(s)
+//@   ensures sgas(s) == wrap64(old(sgas(s)) + wrap64(gas * 20))        // C09.gas
+
+//@ func (*State).ConsumeContractGas
+//@   requires s != nil && s.gc != nil
+//@   modifies gasfull(s.gc), gcons(s.gc), sgas(s)
+//@   ensures sgas(s) == wrap64(old(sgas(s)) + wrap64(gas * 1))         // C09.gas
+
+// versioned reads (IAVL history assumed immutable: T-IAVL). verVal(cs)[version][key]: value of key in the saved
+// tree version, nil-bytes if absent
+//@ model verVal(*ChainState) array[int]array[string]bytes
+//@ assume func (*State).GetVersioned
+//@   modifies nothing
+//@   ensures result == verVal(s.cs)[version][str(key)]
+//@ assume func (*State).GetPrevious
+//@   modifies nothing
+//@   ensures result == verVal(s.cs)[s.cs.Version - num][str(key)]
